@@ -22,6 +22,64 @@ theorem take_blocks_iff (w : World) (f c : Nat) (ho : (w.chans c).closed = false
     (∃ w', chanPop currentCfg w f c 0 = .blocked w') ↔ (w.chans c).items = [] :=
   Ev.take_blocks_iff currentCfg w f c 0 ho
 
+/-- FIFO use of the item queue (any state): a take that does not wait returns the head of `items` and leaves the tail; a
+    give that finds no waiting taker appends at the tail.  (`fifo_per_channel` proper additionally needs the reachable-state
+    invariant "a live pending reader implies `items = []`", so that the direct hand-over in push cannot overtake queued
+    items; that invariant is NOT proved here - it is checked on every implementation state by the direct oracle,
+    failure kind `waiting-reader-with-items`.) -/
+theorem fifo_per_channel_partial (w : World) (f c : Nat) :
+    (∀ w' r, (w.chans c).closed = false → chanPop currentCfg w f c 0 = .got w' r →
+        ∃ x rest, (w.chans c).items = x :: rest ∧ r = some x ∧ (w'.chans c).items = rest) ∧
+    (∀ x w' b, hasLiveReader w.fibers (w.chans c).readPending = false → chanPush currentCfg w f c x 0 = .ok w' b →
+        (w'.chans c).items = (w.chans c).items ++ [x]) :=
+  ⟨fun w' r ho h => Ev.chanPop_head currentCfg w f c 0 w' r ho h,
+   fun x w' b hr h => Ev.chanPush_tail currentCfg w f c x 0 w' b hr h⟩
+
+/-! ## select -/
+
+/-- When `ev/select` returns without suspending, its result is the result of exactly one of its clauses and no channel
+    other than that clause's channel has changed (any state, any clause list). -/
+theorem select_exactly_one (w w' : World) (f : Nat) (cls : List Clause) (v : Val)
+    (h : choiceImmediate currentCfg w f cls = some (w', v)) :
+    ∃ cl ∈ cls, v.ofClause cl ∧ ∀ c', c' ≠ cl.chan → w'.chans c' = w.chans c' :=
+  Ev.choiceImmediate_one currentCfg f cls w w' v h
+
+/-! ## close -/
+
+/-- Closing an open channel (any state) empties both pending queues, marks it closed and schedules every waiter whose
+    registration is current and whose fiber can be resumed (its sched_id is bumped = a wake-up task was appended). -/
+theorem close_wakes_all (w : World) (c : Nat) (ho : (w.chans c).closed = false) (p : Pending)
+    (hp : p ∈ (w.chans c).writePending ∨ p ∈ (w.chans c).readPending)
+    (hl : p.sched = (w.fibers p.fiber).sched) (hr : fiberCanResume (w.fibers p.fiber) = true)
+    (hcn : (w.fibers p.fiber).canceled = false) :
+    ((chanClose currentCfg w c).chans c).closed = true ∧ ((chanClose currentCfg w c).chans c).readPending = [] ∧
+    ((chanClose currentCfg w c).chans c).writePending = [] ∧
+    (w.fibers p.fiber).sched < ((chanClose currentCfg w c).fibers p.fiber).sched :=
+  Ev.chanClose_wakes_all currentCfg w c ho p hp hl hr hcn
+
+/-! ## conservation, for every sequence of actions (any interleaving, any program) -/
+
+/-- For every action sequence from the start state, every channel `c` and every value `x`:
+    #times `x` was pushed into `c` = #times `c` handed `x` out + #copies still queued in `c`. -/
+theorem conservation (limits : Nat → Nat) (as : List Action) (c x : Nat) :
+    let w := run currentCfg (World.start limits) as
+    (onChan w.ghost.pushed c).count x = (onChan w.ghost.handed c).count x + (w.chans c).items.count x :=
+  Ev.run_conserved currentCfg as _ (Ev.start_conserved limits) c x
+
+/-- nothing is handed out that was not given, and nothing twice: a value pushed at most once into `c` is handed out by
+    `c` at most once, and only if it was pushed. -/
+theorem nothing_twice (limits : Nat → Nat) (as : List Action) (c x : Nat) :
+    let w := run currentCfg (World.start limits) as
+    (onChan w.ghost.handed c).count x ≤ (onChan w.ghost.pushed c).count x := by
+  have := conservation limits as c x
+  simp only at this ⊢
+  omega
+
+/-- non-vacuity: a run in which a value is pushed, handed out and received -/
+example : let w := run Cfg.good (World.start fun _ => 0)
+            [.timers, .runTask, .go 1, .take 0, .runTask, .give 0 7, .finish false, .runTask, .finish false]
+          w.ghost.pushed = [(0, 7)] ∧ w.ghost.handed = [(0, 7)] ∧ w.ghost.received = [(0, 7)] := by decide
+
 /-! ## the three defects of the pinned tree, as theorems about the model with the pinned configuration -/
 
 /-- DESIGN §4-1 on a 2-fiber world: main spawns a taker, sleeps, then `(ev/select [ch 11])`.  With the pinned
@@ -61,5 +119,21 @@ theorem close_wakes_stale_select_waiter :
     w.ghost.dropped.map (·.value) = [Val.take 1 2001] ∧ w.ghost.received = [] := by decide
 
 example : (run Cfg.good (World.start fun _ => 0) staleCloseActs).ghost.received = [(1, 2001)] := by decide
+
+/-! ## obligations on the current source -/
+
+/-- `no_lost_wakeup`, proved part: on the three witness schedules the CURRENT source (configuration from Gen/Ev.lean)
+    neither strands a fiber nor drops a task.  Fails to check on a tree that lacks any of the three tests.
+    NOT proved: the invariant for all action sequences (a suspended fiber always has a task, timer or live registration
+    carrying its current sched_id; a live pending reader implies `items = []`; #live pending writers ≤ count - limit)
+    and its corollary `terminates_when_matchable`.  Both are checked on every explored implementation state by the
+    direct oracle (failure kinds `lost-wakeup`, `waiting-reader-with-items`, `reader-and-writer-both-waiting`). -/
+theorem no_lost_wakeup_partial :
+    lostWakeup (run currentCfg (World.start fun _ => 0) hangActs) 0 1 = false
+    ∧ (run currentCfg (World.start fun _ => 0) staleWriterActs).ghost.dropped = []
+    ∧ (run currentCfg (World.start fun _ => 0) staleCloseActs).ghost.dropped = [] := by decide
+
+/-- the current source has every test the model knows about, with the reference operators -/
+theorem current_source_checks : currentCfg = Cfg.good := by decide
 
 end JanetModel.Props.C06
